@@ -180,6 +180,25 @@ func VerifC12Positions() {
 	}
 }
 
+// VerifC12Trees: an operator tree e (every shape with up to `treeops` operators, literals
+// symbolic) as the right or left operand of an operator whose other operand is itself compound,
+// against the same computation through a temporary.
+func VerifC12Trees() {
+	t := NewTwin()
+	g := t.G
+	k := 1 + vrt.Choice("treeops", vrt.Param("treeops", 3))
+	e := g.Tree(k)
+	vrt.Note("e", Src(e))
+	other := bin(g.op(), node.Int(vrt.Int("lit")), node.Int(vrt.Int("lit")))
+	op := g.op()
+	tmp := asg("t", e)
+	if vrt.Bool("e-on-the-right") {
+		t.Compare(bin(op, other, e), true, blk(tmp, bin(op, other, nm("t"))), true, "tree-right-operand")
+	} else {
+		t.Compare(bin(op, e, other), true, blk(tmp, bin(op, nm("t"), other)), true, "tree-left-operand")
+	}
+}
+
 // VerifC12Increment: x = x + 1, x = 1 + x and t = x; x = t + 1 agree for x of any kind, at top
 // level (global) and inside a function (local).
 func VerifC12Increment() {
